@@ -13,13 +13,17 @@ int sim_pthread_mutex_init(pthread_mutex_t *, const pthread_mutexattr_t *);
 int sim_pthread_mutex_destroy(pthread_mutex_t *);
 int sim_pthread_mutex_lock(pthread_mutex_t *);
 int sim_pthread_mutex_unlock(pthread_mutex_t *);
+int sim_pthread_mutex_trylock(pthread_mutex_t *);
 int sim_pthread_cond_init(pthread_cond_t *, const pthread_condattr_t *);
 int sim_pthread_cond_destroy(pthread_cond_t *);
 int sim_pthread_cond_wait(pthread_cond_t *, pthread_mutex_t *);
+int sim_pthread_cond_timedwait(pthread_cond_t *, pthread_mutex_t *, const struct timespec *);
 int sim_pthread_cond_signal(pthread_cond_t *);
 int sim_pthread_cond_broadcast(pthread_cond_t *);
 int sim_pthread_create(pthread_t *, const pthread_attr_t *, void *(*)(void *), void *);
 int sim_pthread_join(pthread_t, void **);
+int sim_pthread_detach(pthread_t);
+int sim_pthread_once(pthread_once_t *, void (*)(void));
 void sim_yield(void);
 
 enum { SIM_STRAT_RANDOM = 0, SIM_STRAT_PCT = 1, SIM_STRAT_RUN_TO_BLOCK = 2, SIM_STRAT_RR = 3, SIM_STRAT_N = 4 };
@@ -41,7 +45,7 @@ struct sim_sched_cfg {
 
 struct sim_sched_stats {
 	uint64_t steps, choices_hash, switches, preempts;
-	uint64_t spurious, multiwake, starves, delays;
+	uint64_t spurious, multiwake, starves, delays, timeouts;
 	uint64_t lock_contended, cond_waits, signals_lost, signals;
 	uint64_t threads_created, max_live;
 	/* per start routine (first SIM_MAX_ROUTINES distinct ones, in order of first use) */
